@@ -753,8 +753,9 @@ class DBUDSServer(UDSServer):
                     query += f"json_extract(s.properties_pre, '$.{key}') IS NULL AND "
                 else:
                     query += f"json_extract(s.properties_pre, '$.{key}') = ? AND "
+                    # json_extract() returns strings unquoted
                     parameters.append(
-                        value if isinstance(value, int | float) else json.dumps(value)
+                        value if isinstance(value, int | float | str) else json.dumps(value)
                     )
 
         query += "r.request_pdu = ? "
